@@ -127,6 +127,13 @@ CHECKS["C18"] = dict(
     design_ref="3/C18",
 )
 
+CHECKS["C19"] = dict(
+    technique="Hypothesis-generated builder patterns and pure solver callbacks with a recording oracle (soundness, purity, neighbour validity), metamorphic reproducibility runs (global random state / backend / interpreter), and range, chi-square and dictated-raw-word checks of the deterministic PRNG",
+    text="(a) generate_problem runs over generated patterns (Choice, ArrayBuilder2D with symmetry / disallow_adjacent incl. custom offsets / use_move / symmetric initial, SegmentationBuilder2D, nested lists and tuples with constants) and hash-based solver, uniqueness, score, pretest and penalty callbacks: the result is None or the first solver argument that was sat and accepted; every neighbour differs from the current problem in exactly one builder position with values from the choice set, keeps container types, point symmetry and (value-setting updates) the adjacency option; nothing handed out earlier is mutated. (b) one seed gives one candidate sequence under two random.seed values, on z3 vs the cspuz_core stand-in for a real model, and in a fresh interpreter; another seed gives another sequence. (c) randint in [a,b] incl. negative a and width 2^32, full support for width <= 64, ValueError on invalid ranges; choice / shuffle / random ranges. (d) chi-square (p > 1e-9) for randint, choice, shuffle (n <= 4), random; structurally, with the raw 32-bit words dictated: accepted iff below 2^32 - 2^32 mod w, value a + x mod w, equal preimage counts for w > 2^26, n! index sequences give n! permutations. Exploration.",
+    note="Trusted base: the recording oracle in checks/c19.py; uniformity of the xorshift stream itself is taken from the literature. 16/16 sensitivity mutants caught; two genuine defects found and fixed (randint offset, segmentation using Python's random).",
+    design_ref="3/C19",
+)
+
 NOT_BUILT_REASON = "check not built yet in this session (planned in DESIGN.md section 3); not claimed until it runs quietly and is mutation-tested"
 
 def main():
